@@ -4,11 +4,17 @@
    certificates of Proofs/ on the model's own output.
    A tensor is a list of rows (a 1-D vector of length n is n rows of length 1). *)
 From Coq Require Import List Arith ZArith QArith Qabs Bool.
+From Coq Require Uint63.
 From TLV Require Import Base.Ops Base.Tensor Model.Prox Model.ProxDispatch Corr.Common.
 From TLV Require Model.Constraints.
 Import ListNotations.
 
 Definition M := list (list Q).
+
+(* compact literal of a binary floating-point value (-1)^neg * m / 2^e with primitive integers (an order of magnitude cheaper to
+   elaborate than Qmake with binary numerals; the value is the same reduced rational) *)
+Definition dy (neg : bool) (m e : Uint63.int) : Q :=
+  let z := Uint63.to_Z m in Qred (Qmake (if neg then (- z)%Z else z) (Z.to_pos (2 ^ Uint63.to_Z e))).
 
 Inductive op :=
 | ONonneg | OSoft (t : Q) | OSoftArr (ts : M) | OL2sq (t : Q)
@@ -22,8 +28,8 @@ Inductive op :=
    Python int keys); operator and parameter are selected by C11's model of validate_constraints (Model/Constraints.v: zvalidate,
    through Model/ProxDispatch.validate_kwargs); aux = norm tape of the selected operator.
    ORouted: the implementation returned; ORejected: the implementation raised ValueError *)
-| ORouted (n_const : option nat) (order : nat) (specs : kwargs) (aux : Q)
-| ORejected (n_const order : nat) (specs : kwargs)
+| ORouted (n_const : option nat) (order : Z) (specs : kwargs) (aux : Q)      (* order: the Python int as written, also negative / out of range *)
+| ORejected (n_const : nat) (order : Z) (specs : kwargs)
 (* the call o on a tensor with ndim >= 3 dimensions (presented as first axis x the rest): raised = the implementation raised ValueError *)
 | ONd (ndim : nat) (raised : bool) (o : op).
 
@@ -46,7 +52,7 @@ Definition to_pop (o : op) : option (@pop Q) :=
 Definition resolve_op (o : op) : option op :=
   match o with
   | ORouted n ord specs aux =>
-      match selected_pop (fun q : Q => q) n ord specs aux with
+      match selected_pop_z (fun q : Q => q) n ord specs aux with
       | Ok po => Some (of_pop po)
       | Err => None
       end
@@ -128,7 +134,8 @@ Definition uni_ok (atol rtol eps : Q) (rows out : M) : bool :=
   same_shape rows out && all2 (uni_col_ok atol rtol eps gmax) cols (cols_of Qops out).
 
 (* case: id, operator, input rows, implementation's output rows, atol, rtol *)
-Definition case := (nat * op * M * M * Q * Q)%type.
+(* (the id is a binary integer: a unary nat id of a few thousand costs more to elaborate than the rest of the case) *)
+Definition case := (Z * op * M * M * Q * Q)%type.
 Definition agree_op (o : op) (rows out : M) (atol rtol : Q) : bool :=
   model_cert atol rtol o rows &&
   match o with
@@ -142,7 +149,7 @@ Definition agree_op (o : op) (rows out : M) (atol rtol : Q) : bool :=
 Definition agree (c : case) : bool :=
   let '(_, o0, rows, out, atol, rtol) := c in
   match o0 with
-  | ORejected n ord specs => match validate_kwargs n ord specs with Err => true | Ok _ => false end
+  | ORejected n ord specs => match selected_pop_z (fun q : Q => q) (Some n) ord specs 0 with Err => true | Ok _ => false end
   | ONd nd raised o1 =>
       (* raised-iff-the-model-refuses (Model/ProxDispatch.ndim_ok); an accepted call is compared as usual *)
       match resolve_op o1 with None => false | Some o =>
@@ -150,5 +157,5 @@ Definition agree (c : case) : bool :=
       if raised then negb (ndim_ok po nd) else ndim_ok po nd && agree_op o rows out atol rtol end end
   | _ => match resolve_op o0 with None => false | Some o => agree_op o rows out atol rtol end
   end.
-Definition ident (c : case) : nat := let '(i, _, _, _, _, _) := c in i.
-Definition failing := failing_ids agree ident.
+Definition ident (c : case) : Z := let '(i, _, _, _, _, _) := c in i.
+Definition failing (cs : list case) : list Z := map ident (filter (fun c => negb (agree c)) cs).
